@@ -17,6 +17,15 @@ EXTENDS PdfString, FiniteSets, TLC, Json, IOUtils
 F == TLCEval(JsonDeserialize(IOEnv.HV_FILL_FILE))
 SeqToSet(q) == {q[k] : k \in 1..Len(q)}
 
+(* the solution file is an INI file: surrounding whitespace of a text value does not survive it (C14), so the text that
+   reaches a box is compared up to surrounding whitespace *)
+IsSp(c) == c \in {32, 9, 10, 11, 12, 13}
+RECURSIVE LStrip(_)
+LStrip(q) == IF q # <<>> /\ IsSp(Head(q)) THEN LStrip(Tail(q)) ELSE q
+RECURSIVE RStrip(_)
+RStrip(q) == IF q # <<>> /\ IsSp(q[Len(q)]) THEN RStrip(SubSeq(q, 1, Len(q) - 1)) ELSE q
+Strip(q) == RStrip(LStrip(q))
+
 JudgeString(o) ==
   LET p == ParseEntry(o.entry) IN
   IF ~p.ok THEN p.why
@@ -39,7 +48,7 @@ JudgeFill(o) ==
      ELSE IF ~Sorted(o, o.filled) THEN "forms are not ordered by jurisdiction and attachment sequence"
      ELSE IF o.overlong # <<>> THEN "a value longer than its box (or outside its choice list) was filled instead of stopping with an error"
      ELSE IF \E k \in 1..Len(o.entries) : ~ParseEntry(o.entries[k].entry).ok THEN "an FDF entry is malformed"
-     ELSE IF \E k \in 1..Len(o.entries) : ParseEntry(o.entries[k].entry).value # o.entries[k].expect THEN "an FDF value differs from the mapped text (truncated or altered)"
+     ELSE IF \E k \in 1..Len(o.entries) : Strip(ParseEntry(o.entries[k].entry).value) # Strip(o.entries[k].expect) THEN "an FDF value differs from the mapped text (truncated or altered)"
      ELSE ""
   ELSE IF o.outcome \in {"PDFValueTooLong", "PDFInvalidChoiceValue"} THEN
      IF o.overlong = <<>> THEN "the fill stopped with " \o o.outcome \o " although every value fits"
